@@ -119,10 +119,26 @@ pub fn run(out: &mut impl Write, seed: u64, cases: usize, _replay: &str) {
     let mut r = Sm::new(seed);
     // a fixed core first (one of each tracker), then the rest in shuffled order
     for i in (1..all.len()).rev() { let j = r.below(i as u64 + 1) as usize; all.swap(i, j); }
-    for (i, (k, w, m)) in all.iter().enumerate() {
-        if i >= cases { break; }
+    // cases beyond the matrix walk it again with other worker counts; the cases are independent tracker
+    // processes and mostly wait for the supervising loop's next pass, so they run side by side (six at a time)
+    let mut jobs: Vec<(String, String, String, usize, usize)> = Vec::new();
+    for i in 0..cases {
+        let (k, w, m) = all[i % all.len()];
         let sw = r.pick(&[1usize, 2]);
-        let ww = r.pick(&[1usize, 2]);
-        one(out, k, w, m, sw, ww);
+        let ww = r.pick(&[1usize, 2, 3]);
+        jobs.push((k.to_string(), w.to_string(), m.to_string(), sw, ww));
+    }
+    for chunk in jobs.chunks(6) {
+        let handles: Vec<_> = chunk.iter().cloned().map(|(k, w, m, sw, ww)| std::thread::spawn(move || {
+            let mut buf: Vec<u8> = Vec::new();
+            one(&mut buf, &k, &w, &m, sw, ww);
+            buf
+        })).collect();
+        for h in handles {
+            match h.join() {
+                Ok(buf) => out.write_all(&buf).unwrap(),
+                Err(_) => writeln!(out, "sv ? ? ? 0 0 => HARNESS-PANIC").unwrap(),
+            }
+        }
     }
 }
